@@ -162,9 +162,17 @@ pub fn sanitise_for(e: &Expr, x: &[f64], rewrites: &mut usize, min_int_power: f6
         }
         Expr::Exp(a) => {
             let a = s(a, rewrites);
-            if eval_f64(&a, x) > 6.0 {
+            let va = eval_f64(&a, x);
+            if va > 6.0 {
                 *rewrites += 1;
                 Expr::Exp(Box::new(Expr::NormCdf(Box::new(a))))
+            } else if va < -120.0 {
+                // exp(-700) is subnormal: the node's own derivative products would be quantised
+                // before the magnitude clamp below can scale the node back. Scale the argument
+                // into [-120, -60] instead (a power of two, exact)
+                *rewrites += 1;
+                let j = (va.abs() / 100.0).log2().ceil();
+                Expr::Exp(Box::new(Expr::Bin(Op::Mul, Form::OwnOwn, Box::new(a), Box::new(Expr::Const(Fl(2f64.powf(-j)))))))
             } else {
                 Expr::Exp(Box::new(a))
             }
@@ -178,7 +186,18 @@ pub fn sanitise_for(e: &Expr, x: &[f64], rewrites: &mut usize, min_int_power: f6
                 Expr::Log(Box::new(a))
             }
         }
-        Expr::NormCdf(a) => Expr::NormCdf(Box::new(s(a, rewrites))),
+        Expr::NormCdf(a) => {
+            let a = s(a, rewrites);
+            let va = eval_f64(&a, x);
+            if va < -25.0 {
+                // Phi(-38) is subnormal as well: same treatment
+                *rewrites += 1;
+                let j = (va.abs() / 20.0).log2().ceil();
+                Expr::NormCdf(Box::new(Expr::Bin(Op::Mul, Form::OwnOwn, Box::new(a), Box::new(Expr::Const(Fl(2f64.powf(-j)))))))
+            } else {
+                Expr::NormCdf(Box::new(a))
+            }
+        }
         Expr::InvNormCdf(a) => {
             let a = s(a, rewrites);
             let v = eval_f64(&a, x);
@@ -340,9 +359,11 @@ impl Jet {
             }
         }
         for i in 0..n {
-            o.gl[i] = (a1 + a2 * u.vl) * u.gl[i];
+            // (Taylor terms up to the third derivative: at a point where f' = f'' = 0 - a cube at an
+            // exactly-zero base - the error of the argument enters squared through f''')
+            o.gl[i] = (a1 + a2 * u.vl + 0.5 * a3 * u.vl * u.vl) * u.gl[i];
             for k in 0..n {
-                o.hl[i][k] = (a1 + a2 * u.vl) * u.hl[i][k] + (2.0 * a2 + a3 * u.vl) * u.gl[i] * u.gl[k];
+                o.hl[i][k] = (a1 + a2 * u.vl + 0.5 * a3 * u.vl * u.vl) * u.hl[i][k] + (2.0 * a2 + a3 * u.vl) * u.gl[i] * u.gl[k];
             }
         }
         for i in 0..n {
